@@ -120,8 +120,21 @@ func dumpName(n enc.Name) string {
 	return "N[" + strings.Join(parts, ",") + "]"
 }
 
+// dumpSegs: when set, wire fields are printed with their segmentation, W[hex,hex,...] (for the wire-plan lines)
+var dumpSegs bool
+
 // dumpKind prints the Go value v of a field of kind f.
 func (e *Entry) dumpKind(f *Field, v reflect.Value) string {
+	if dumpSegs && f.Kind == "wire" && !v.IsNil() {
+		var sb strings.Builder
+		sb.WriteString("W[")
+		for i := 0; i < v.Len(); i++ { // every segment is followed by a comma: W[] = no segment, W[,] = one empty segment
+			sb.WriteString(hx(v.Index(i).Bytes()))
+			sb.WriteString(",")
+		}
+		sb.WriteString("]")
+		return sb.String()
+	}
 	switch f.Kind {
 	case "natural", "fixedUint":
 		if v.Kind() == reflect.Ptr {
